@@ -8,7 +8,7 @@ Require Import ZArith List Bool Lia.
 Require Import IW.SAFE.Buf IW.SAFE.Buf_proofs IW.SAFE.Ptr IW.SAFE.Ptr_proofs IW.SAFE.Conv2 IW.SAFE.Conv2_proofs
   IW.SAFE.Unesc IW.SAFE.Unesc_proofs IW.SAFE.Num IW.SAFE.Num_proofs IW.SAFE.Xstr IW.SAFE.Xstr_proofs IW.SAFE.Re IW.SAFE.Re_proofs IW.Gen.Facts.
 Require Import IW.SAFE.Txt IW.SAFE.Ini IW.SAFE.Ini_proofs IW.SAFE.Str IW.SAFE.Str_proofs IW.SAFE.Strto IW.SAFE.Strto_proofs
-  IW.SAFE.Jsk IW.SAFE.Jsk_proofs.
+  IW.SAFE.Jsk IW.SAFE.Jsk_proofs IW.SAFE.Repl IW.SAFE.Repl_proofs IW.SAFE.Re_total_proofs IW.SAFE.Re_vm_proofs.
 Import ListNotations. Local Open Scope Z_scope.
 
 (* ---- JSON pointer parser (_jbl_ptr_pool) *)
@@ -272,3 +272,64 @@ Print Assumptions C17_strtod_end_safe.
 Theorem C17_numbuf_holds_int64 : forall v, - 2 ^ 63 <= v < 2 ^ 63 -> Z.abs v < 10 ^ (IWNUMBUF_SIZE - 2).
 Proof. exact numbuf_holds_int64. Qed.
 Print Assumptions C17_numbuf_holds_int64.
+
+(* ---- jbn_from_json / jbn_from_js as their callers see them (rc, *node).  strict = texts without any value are refused.
+   full statement, FALSE of the code as it is (fixes/safety-json-rootless.diff; witness: a lone closing bracket):
+   forall js rng b p st, jdoc false js rng b = Ok (JAt p, st) -> j_nodes st <> 0 *)
+Theorem C17_json_doc_has_root : forall js rng b p st, jdoc true js rng b = Ok (JAt p, st) -> j_nodes st <> 0.
+Proof. exact jdoc_has_root. Qed.
+Print Assumptions C17_json_doc_has_root.
+Theorem C17_json_doc_total : forall strict js rng s, nz s -> exists out st, jdoc strict js rng (s ++ [0]) = Ok (out, st).
+Proof. exact jdoc_total. Qed.
+Print Assumptions C17_json_doc_total.
+Theorem C17_json_doc_rootless_refuted : exists s, nz s /\ jdoc false false (fun _ => false) (s ++ [0]) = Ok (JAt 0, mkJ 0 (-1) 0).
+Proof. exact jdoc_rootless_refuted. Qed.
+Print Assumptions C17_json_doc_rootless_refuted.
+
+(* ---- iwu_replace (iwutils.c): terminates for every text when no key is empty (or once empty keys are skipped:
+   fixes/safety-replace-empty-key.diff).  full statement, FALSE of the code as it is:
+   forall data keys, exists r, replace false data keys = Ok r *)
+Theorem C17_replace_terminates : forall skips data keys, keys_nonempty keys \/ skips = true -> exists r, replace skips data keys = Ok r.
+Proof. exact replace_terminates. Qed.
+Print Assumptions C17_replace_terminates.
+Example C17_replace_ex : keys_nonempty [([123; 120; 125], Some [49]); ([97], None)] /\
+  replace false [97; 123; 120; 125; 98; 123; 120; 125] [([123; 120; 125], Some [49]); ([97], None)] = Ok [97; 49; 98; 49].
+Proof. split; [repeat constructor; unfold zlen; simpl; lia|vm_compute; reflexivity]. Qed.
+(* an empty key: ptr never advances, whatever the mapper answers *)
+Theorem C17_replace_empty_key_refuted : forall c data m rest, replace false (c :: data) (([], m) :: rest) = Fuel.
+Proof. exact replace_empty_key_refuted. Qed.
+Print Assumptions C17_replace_empty_key_refuted.
+
+(* ---- iwre_create (parse.c, compile.c) for EVERY pattern: the parser never reads past the terminator of the pattern and
+   ends within its fuel (pattern length + 2 nested calls), every bracket expression and every node it builds is compiled
+   (no Oob, no Fuel), and a program that is handed out respects REGEX_MAX_INSTRUCTIONS (T1) *)
+Theorem C17_re_create_no_oob_terminates : forall pat, Forall byte pat -> exists r, re_create pat = Ok r.
+Proof. exact re_create_total. Qed.
+Print Assumptions C17_re_create_no_oob_terminates.
+Theorem C17_re_program_bounded : forall pat code, Forall byte pat -> 0 <= re_max_instructions ->
+  re_create pat = Ok (Some code) -> 1 <= ilen code <= re_max_instructions.
+Proof. exact re_program_bounded. Qed.
+Print Assumptions C17_re_program_bounded.
+(* a{90} nested in {91}: 8190 + 5 + 1 instructions > 8192 is refused; a{90}{90} compiles to 8106 instructions *)
+Example C17_re_program_bounded_ex :
+  re_create [40; 97; 123; 57; 48; 125; 41; 123; 57; 49; 125] = Ok None /\
+  (exists code, re_create [97; 123; 57; 48; 125; 123; 57; 48; 125] = Ok (Some code) /\ ilen code = 8106).
+Proof. split; [vm_compute; reflexivity|]. eexists. split; [vm_compute; reflexivity|vm_compute; reflexivity]. Qed.
+
+(* ---- iwxstr_clone in the operation histories (C17_xstr_safe / C17_xstr_step quantify over XClone too): the clone owns
+   asize cells of its own; an append that fits the capacity it reports stays inside its block *)
+Example C17_xstr_clone_ex : exists x0 x', xcreate 64 = Ok x0 /\
+  xrun x0 [XCat [97; 98; 99; 100]; XClone; XCat (repeat 101 40); XClone; XUnshift [122]] = Ok x' /\
+  x_size x' = 45 /\ asize x' = 64.
+Proof. do 2 eexists. vm_compute. repeat split; reflexivity. Qed.
+
+(* ---- iwre_match (vm.c, iwre.c) on whatever iwre_create hands out, for EVERY subject text and every array: no fetch
+   outside the program, no abort(), no read past the terminator of the text, termination (vm_add_thread: every call first
+   marks a program counter that was not marked, at most one per instruction; the outer loop: one round per text byte) *)
+Theorem C17_re_match_no_oob_terminates : forall pat code text prior, Forall byte pat -> re_create pat = Ok (Some code) ->
+  exists r, re_match code text prior = Ok r.
+Proof. exact re_match_total. Qed.
+Print Assumptions C17_re_match_no_oob_terminates.
+Theorem C17_re_query_no_oob_terminates : forall pat text len, Forall byte pat -> exists r, re_query pat text len = Ok r.
+Proof. exact re_query_total. Qed.
+Print Assumptions C17_re_query_no_oob_terminates.
